@@ -64,3 +64,55 @@ CHECKS = {
         ],
     },
 }
+
+# ---------------------------------------------------------------- C12
+c12_cases = []
+for sh in [(0, 2, 0, 0, 2, 0), (1, 1, 0, 1, 1, 0), (0, 34, 0, 1, 2, 0), (0, 10, 1, 0, 2, 0), (1, 1, 1, 1, 1, 1), (0, 2, 1, 0, 2, 1), (0, 1, 0, 0, 2, 0)]:
+    same = sh[0] == sh[3] and sh[1] == sh[4] and sh[2] == sh[5]
+    c12_cases.append(case("injective %s" % (sh,), "VerifC12Injective", sh, ["different"] + (["equal"] if same else []), Q, selftest=(sh == (1, 1, 0, 1, 1, 0))))
+for sh in [(0, 6, 0, 0, 6, 0), (1, 5, 0, 1, 5, 0), (0, 37, 0, 1, 5, 0), (1, 9, 1, 1, 1, 0)]:
+    same = sh[0] == sh[3] and sh[1] == sh[4] and sh[2] == sh[5]
+    c12_cases.append(case("injective %s" % (sh,), "VerifC12Injective", sh, ["different"] + (["equal"] if same else []), T))
+for n in (17, 24, 28):
+    c12_cases.append(case("cut n=%d" % n, "VerifC12Cut", [n], ["cut", "reject"], Q, selftest=(n == 24)))
+for n in (32, 40):
+    c12_cases.append(case("cut n=%d" % n, "VerifC12Cut", [n], ["cut", "reject"], T))
+# Entry: (n, lc, precert, idx, delta, mode, allowArchival)
+c12_cases += [
+    case("entry authentic n=2", "VerifC12Entry", [2, 1, 0, 1, 0, 2, 0], ["returned"], Q, selftest=True),
+    case("entry n=1 tampered data tile", "VerifC12Entry", [1, 1, 0, 0, 0, 0, 0], ["returned", "refused"], Q, selftest=True),
+    case("entry n=1 tampered data tile, archival allowed", "VerifC12Entry", [1, 1, 0, 0, 0, 0, 1], ["returned", "refused"], Q),
+    case("entry n=1 truncated data tile", "VerifC12Entry", [1, 1, 0, 0, -1, 0, 0], ["refused"], Q),
+    case("entry n=1 extended data tile", "VerifC12Entry", [1, 1, 0, 0, 2, 0, 0], ["returned", "refused"], Q),
+    case("entry n=2 idx=1 tampered hash tile", "VerifC12Entry", [2, 1, 0, 1, 0, 1, 0], ["returned", "refused"], Q),
+    case("entry n=2 idx=1 tampered data tile", "VerifC12Entry", [2, 0, 0, 1, 0, 0, 0], ["returned", "refused"], T),
+    case("entry n=1 precert tampered data tile", "VerifC12Entry", [1, 0, 1, 0, 0, 0, 0], ["returned", "refused"], T),
+    case("entries authentic n=3", "VerifC12Entries", [3, 1, 0, 2], ["complete"], Q, selftest=True),
+    case("entries n=1 tampered data tile", "VerifC12Entries", [1, 1, 0, 0], ["complete", "stopped"], Q),
+    case("entries n=1 extended data tile", "VerifC12Entries", [1, 1, 1, 0], ["stopped"], Q),
+    case("entries n=2 tampered hash tile", "VerifC12Entries", [2, 1, 0, 1], ["complete", "stopped"], Q),
+    case("entries n=2 tampered data tile", "VerifC12Entries", [2, 0, 0, 0], ["complete", "stopped"], T),
+]
+
+c12s_cases = [
+    case("inclusion x509 ext=8", "VerifC12Inclusion", [0, 1, 8], ["confirmed", "refused"], Q),
+    case("inclusion precert ext=8", "VerifC12Inclusion", [1, 1, 8], ["confirmed", "refused"], Q),
+    case("inclusion unknown extension first", "VerifC12Inclusion", [0, 1, 12], ["confirmed", "refused"], Q),
+    case("inclusion short extension", "VerifC12Inclusion", [0, 1, 7], ["refused"], Q),
+    case("inclusion x509 ext=16", "VerifC12Inclusion", [0, 3, 16], ["confirmed", "refused"], T),
+]
+
+CHECKS["C12"] = {
+    "level": "model_checking",
+    "jobs": [dict(ROOT, harness=["root/zz_verif_c10.go", "root/zz_verif_c12.go"], native=True, cases=c12_cases),
+             dict(ROOT, harness=["root/zz_verif_c10.go", "root/zz_verif_c12.go", "root/zz_verif_c12s.go"], native=False, cases=c12s_cases)],
+    "bounds": {
+        "quick": "injectivity of MerkleTreeLeaf for pairs of entry shapes with certificates up to 34 bytes; cutEntry over fully symbolic tiles of 17..28 bytes; "
+                 "real torchwood client over an authentic log of 1-3 entries (symbolic contents) whose data tile or level-0 hash tile is replaced by fully symbolic bytes (same length, truncated, extended)",
+        "thorough": "as quick plus cutEntry up to 40 bytes, two-entry logs with a fully symbolic data tile, precertificate entries",
+    },
+    "assumptions": [IDEAL_HASH,
+                    "torchwood.Client, tlog (TileHashReader, CheckRecord, ProveRecord, TreeHash) and context are executed from their real source",
+                    "tile store = in-memory map keyed by TilePath; HTTP, caching and file-system tile readers are outside the claim",
+                    "CheckInclusion and Checkpoint are covered in the stub-based job (signature verification as an ideal oracle)"],
+}
